@@ -2,7 +2,10 @@
 // scheduler, simulated sink/source, fault plan plumbing, tape shrinker.
 package sim
 
-import "fmt"
+import (
+	"fmt"
+	"os"
+)
 
 // splitmix64 PRNG (public domain algorithm).
 type SplitMix struct{ s uint64 }
@@ -55,9 +58,17 @@ type Tape struct {
 	replay bool
 	// Over counts draws past the end of a replayed tape.
 	Over int
+	log  *os.File
 }
 
-func NewRecordTape(seed uint64) *Tape { return &Tape{rng: NewSplitMix(seed)} }
+func NewRecordTape(seed uint64) *Tape {
+	t := &Tape{rng: NewSplitMix(seed)}
+	if name := os.Getenv("KSIM_TAPE_LOG"); name != "" {
+		// crash forensics: every draw is appended to a side file as it happens
+		t.log, _ = os.OpenFile(name, os.O_WRONLY|os.O_APPEND|os.O_CREATE, 0o644)
+	}
+	return t
+}
 
 func NewReplayTape(vals []uint32) *Tape {
 	return &Tape{Vals: vals, replay: true}
@@ -97,6 +108,9 @@ func (t *Tape) Intn(n int) int {
 	}
 	t.Vals = append(t.Vals, v)
 	t.pos++
+	if t.log != nil {
+		t.log.Write([]byte{byte(v), byte(v >> 8), byte(v >> 16), byte(v >> 24)})
+	}
 	return int(v)
 }
 
